@@ -22,16 +22,16 @@ import (
 func init() {
 	register(&Check{
 		ID: "C07", Level: "fault_enumeration", Primary: "fault_placements", EvalCount: "faults_injected",
-		Rule: "faults = handler panic in every operation kind (concurrently dispatched bind/search/modify/add/delete/extended; inline StartTLS; inline unbind; default route), each alone, after earlier requests, and " +
+		Rule: "faults = handler panic (the panic value cycles through string, error, int, struct, pointer, byte slice and two runtime errors) in every operation kind (concurrently dispatched bind/search/modify/add/delete/extended; inline StartTLS; inline unbind; default route), each alone, after earlier requests, and " +
 			"while sibling handlers of the same connection are still running; connection reset mid-frame; truncated frame + FIN; malformed / undecodable frames (incl. inputs that used to panic the decoder); a client that stops " +
-			"reading a large response and resets (failed write) or is held; storms of hundreds of recovered panics; the structural mutations (children dropped/doubled/swapped/truncated, tag/class/length corruptions) of the canonical requests; established ldaps sessions that vanish (reset, mid-frame reset, bare FIN, reset with a request unanswered); TLS handshakes stalled and held on a TLS listener; descriptor exhaustion at accept (RLIMIT_NOFILE lowered until accept4 returns EMFILE). Each fault is placed within continuous verified traffic on bystander " +
+			"reading a large response and resets (failed write) or is held; storms of hundreds of recovered panics; the structural mutations (children dropped/doubled/swapped/truncated, tag/class/length corruptions) of the canonical requests; established ldaps sessions that vanish (reset, mid-frame reset, bare FIN, reset with a request unanswered); TLS handshakes stalled and held on a TLS listener; descriptor exhaustion at accept (RLIMIT_NOFILE lowered until accept4 returns EMFILE); 300 (thorough 3000) abruptly ended connections in a row under a descriptor limit with room for 40. Each fault is placed within continuous verified traffic on bystander " +
 			"connections and followed by a fresh-connection probe. distinct_nontrivial = distinct (fault kind, placement) pairs injected while at least one bystander operation overlapped or followed",
 		Assume: []string{"the server runs in a child process; its death, or Run returning while not stopped, is observed by the supervisor / the harness",
 			"the faulted connection itself may die; only bystanders, new connections and the process are asserted"},
 		Phases: func(tier string, seed int64) []Phase {
 			return []Phase{{Name: "faults", Run: c07Faults, Crash: c07Crash}, {Name: "emfile", Run: c07Emfile}, {Name: "tls-stalled-handshakes", Run: c07TLSStalled}}
 		},
-		MinObserved: []string{"faults_injected", "bystander_ops_verified", "bystander_ops_overlapping_or_after_a_fault", "new_connection_probes", "emfile_accept_failures_provoked", "probes_served_while_a_handshake_is_stalled", "mutated_frames_fed"},
+		MinObserved: []string{"faults_injected", "bystander_ops_verified", "bystander_ops_overlapping_or_after_a_fault", "new_connection_probes", "emfile_accept_failures_provoked", "probes_served_while_a_handshake_is_stalled", "mutated_frames_fed", "handler_panics_with_a_value_that_is_neither_string_nor_error", "abruptly_ended_connections_under_a_tight_descriptor_limit"},
 	})
 }
 
@@ -81,7 +81,7 @@ func c07Server() (*Srv, *sync.WaitGroup, error) {
 		m.Bind(func(w *gldap.ResponseWriter, r *gldap.Request) {
 			b, _ := r.GetSimpleBindMessage()
 			if mark(b.UserName) {
-				panic("injected panic in bind handler")
+				c07Throw("bind")
 			}
 			w.Write(r.NewBindResponse(gldap.WithResponseCode(0)))
 		})
@@ -89,7 +89,7 @@ func c07Server() (*Srv, *sync.WaitGroup, error) {
 			s, _ := r.GetSearchMessage()
 			switch {
 			case mark(s.BaseDN):
-				panic("injected panic in search handler")
+				c07Throw("search")
 			case strings.HasPrefix(s.BaseDN, "slow="):
 				d, _ := strconv.Atoi(strings.TrimPrefix(s.BaseDN, "slow="))
 				time.Sleep(time.Duration(d) * time.Millisecond)
@@ -113,46 +113,84 @@ func c07Server() (*Srv, *sync.WaitGroup, error) {
 		m.Modify(func(w *gldap.ResponseWriter, r *gldap.Request) {
 			mm, _ := r.GetModifyMessage()
 			if mark(mm.DN) {
-				panic("injected panic in modify handler")
+				c07Throw("modify")
 			}
 			w.Write(r.NewModifyResponse(gldap.WithResponseCode(0)))
 		})
 		m.Add(func(w *gldap.ResponseWriter, r *gldap.Request) {
 			a, _ := r.GetAddMessage()
 			if mark(a.DN) {
-				panic("injected panic in add handler")
+				c07Throw("add")
 			}
 			w.Write(r.NewResponse(gldap.WithApplicationCode(gldap.ApplicationAddResponse), gldap.WithResponseCode(0)))
 		})
 		m.Delete(func(w *gldap.ResponseWriter, r *gldap.Request) {
 			d, _ := r.GetDeleteMessage()
 			if mark(d.DN) {
-				panic("injected panic in delete handler")
+				c07Throw("delete")
 			}
 			w.Write(r.NewResponse(gldap.WithApplicationCode(gldap.ApplicationDelResponse), gldap.WithResponseCode(0)))
 		})
 		m.ExtendedOperation(func(w *gldap.ResponseWriter, r *gldap.Request) {
-			panic("injected panic in extended handler")
+			c07Throw("extended")
 		}, "1.9.9.1")
 		m.ExtendedOperation(func(w *gldap.ResponseWriter, r *gldap.Request) {
 			w.Write(r.NewExtendedResponse(gldap.WithResponseCode(0)))
 		}, "1.9.9.2")
 		m.ExtendedOperation(func(w *gldap.ResponseWriter, r *gldap.Request) {
-			panic("injected panic in StartTLS handler")
+			c07Throw("StartTLS")
 		}, gldap.ExtendedOperationStartTLS)
 		m.Unbind(func(w *gldap.ResponseWriter, r *gldap.Request) {
 			if c07PanicUnbind.CompareAndSwap(true, false) {
-				panic("injected panic in unbind handler")
+				c07Throw("unbind")
 			}
 		})
 		m.DefaultRoute(func(w *gldap.ResponseWriter, r *gldap.Request) {
-			panic("injected panic in default-route handler")
+			c07Throw("default-route")
 		})
 	})
 	return srv, &park, err
 }
 
 var c07PanicUnbind atomic.Bool
+
+// c07Throw panics with a value whose kind changes from call to call: what a handler panics WITH is the application's
+// business - a string, an error, a number, a struct, a runtime error.
+var c07ThrowCtr, c07ThrownOdd atomic.Int64
+
+type c07PanicStruct struct {
+	Site string
+	N    int
+}
+
+func c07Throw(site string) {
+	msg := "injected panic in " + site + " handler"
+	k := c07ThrowCtr.Add(1) % 8
+	if k >= 2 && k <= 5 {
+		c07ThrownOdd.Add(1)
+	}
+	switch k {
+	case 0:
+		panic(msg)
+	case 1:
+		panic(fmt.Errorf("%s", msg))
+	case 2:
+		panic(42)
+	case 3:
+		panic(c07PanicStruct{Site: site, N: 7})
+	case 4:
+		panic(&c07PanicStruct{Site: site, N: 8})
+	case 5:
+		panic([]byte(msg))
+	case 6:
+		var m map[string]int
+		m[msg] = 1 // runtime error: assignment to entry in nil map
+	default:
+		var p *c07PanicStruct
+		_ = p.N // runtime error: nil pointer dereference
+	}
+	panic(msg)
+}
 
 func c07Search(id int64, base string) []byte {
 	return sber.Message(id, sber.Search{Base: []byte(base), Scope: 2, Filter: sber.PresentFilter("cn"), Attrs: [][]byte{}}.Node(), nil).Encode()
@@ -546,6 +584,7 @@ func c07Faults(c *Ctx) {
 	if n := srv.Log.PanicCount(); n > 0 {
 		c.Count("panics_caught_and_logged_by_gldap", int64(n))
 	}
+	c.Count("handler_panics_with_a_value_that_is_neither_string_nor_error", c07ThrownOdd.Swap(0))
 	srv.StopWithin(patience)
 }
 
@@ -814,6 +853,47 @@ func c07Emfile(c *Ctx) {
 		}
 		c.Count("bystander_ops_verified", 1)
 		c.Count("bystander_ops_overlapping_or_after_a_fault", 1)
+	}
+	// hundreds of connections in a row that end abruptly, under a descriptor limit that leaves room for a few dozen
+	// only. Each one is over (OnClose reported) before the next begins, so none of them may cost the server anything
+	// for good: the probe afterwards - still under the limit - is served.
+	endings := []string{"rst", "truncated-frame-then-rst", "fin", "rst-with-a-request-unanswered"}
+	room := 40
+	lim := syscall.Rlimit{Cur: uint64(countFDs() + room), Max: old.Max}
+	if err := syscall.Setrlimit(syscall.RLIMIT_NOFILE, &lim); err != nil {
+		c.Inconclusive("setrlimit: " + err.Error())
+		return
+	}
+	ended := 0
+	for k := 0; k < c.N(300, 3000); k++ {
+		before := srv.closeCnt.Load()
+		cn, err := net.DialTimeout("tcp", srv.Addr, 2*time.Second)
+		if err != nil {
+			break
+		}
+		end := endings[k%len(endings)]
+		switch end {
+		case "truncated-frame-then-rst":
+			cn.Write(c07Search(5, "tag=5")[:9])
+		case "rst-with-a-request-unanswered":
+			cn.Write(c07Search(5, "slow=20"))
+		}
+		if end != "fin" {
+			cn.(*net.TCPConn).SetLinger(0)
+		}
+		cn.Close()
+		if !srv.WaitCloses(before+1, 3*time.Second) {
+			break
+		}
+		ended++
+		c.Distinct("fault_placements", "abrupt-endings-under-a-descriptor-limit/"+end)
+	}
+	c.Count("faults_injected", int64(ended))
+	c.Count("abruptly_ended_connections_under_a_tight_descriptor_limit", int64(ended))
+	ok := probe(fmt.Sprintf("after %d connections that ended abruptly (reset, truncated frame + reset, FIN, reset with a request unanswered), each one over before the next began, under a descriptor limit with room for %d", ended, room))
+	syscall.Setrlimit(syscall.RLIMIT_NOFILE, &old)
+	if !ok {
+		return
 	}
 	by.Close()
 	srv.StopWithin(patience)
